@@ -40,6 +40,10 @@ fn run_case(line: &str, known_env: &mut BTreeSet<Vec<u8>>) -> (String, String) {
     if let Some(l) = sx.headed("cmdmatch") {
         return hooks::run_cmdmatch(l);
     }
+    #[cfg(feature = "autocomplete")]
+    if let Some(l) = sx.headed("comps") {
+        return hooks::run_comps(l);
+    }
     #[cfg(all(feature = "docgen", feature = "autocomplete"))]
     if let Some(l) = sx.headed("rdoc") {
         return hooks::run_rdoc(l);
